@@ -2929,6 +2929,20 @@ func (x *SExec) doCtlRevert(i int, op SOp) *Fail {
 		return sfail("ctlrevert|valid|refused", fmt.Sprintf("volume revert to %s refused: %v", name, err), "C06")
 	}
 	x.Labels["ctlrevert:ok"]++
+	// a replica whose revert request failed is marked failed at once, and the volume's
+	// status follows: it must not go on counting as an up-to-date replica
+	for j := range F {
+		if m := st.Mode(j); m == types.RW || m == types.WO {
+			vs := st.C.VerifState()
+			props := []string{"C06", "C18"}
+			detail := fmt.Sprintf("the revert request failed on n%d, the volume revert reported success, and n%d is still listed as %s", j, j, m)
+			if ok := nrw - len(F); !vs.ReadOnly && ok < x.P.RF/2+1 {
+				props = append(props, "C03")
+				detail += fmt.Sprintf("; the volume stays writable (ReadOnly=false, RWReplicaCount=%d) although only %d of RF=%d replicas hold the reverted image", vs.RWReplicaCount, ok, x.P.RF)
+			}
+			return sfail("ctlrevert|failed-replica-still-in-service", detail, props...)
+		}
+	}
 	if cp := st.C.VerifState().Checkpoint; cp != "" {
 		x.cpCutByRevert = cp // (only consulted if that snapshot is indeed missing from a chain)
 	}
